@@ -273,6 +273,73 @@ def _worker(args):
     return out
 
 
+def _dead_result(cfg, why):
+    return {"name": cfg.get("name"), "violations": [], "nonrepro": [], "validated": 0, "validation_failures": [],
+            "stats": core.Stats().as_dict(), "obligations": 0, "proved": {}, "inconclusive": [], "samples": [], "vacuous": 0,
+            "witnessed": 0, "shims": [], "assumptions": [], "functions": [], "errors": [f"{cfg.get('name')}: {why}"], "fast": 0,
+            "unconfirmed": 0, "denominators": [], "wall_s": 0.0}
+
+
+def _child(conn, a):
+    try:
+        conn.send(_worker(a))
+    except BaseException as ex:  # noqa: BLE001
+        try:
+            conn.send(_dead_result(a[1], f"worker raised {type(ex).__name__}: {ex}"))
+        except Exception:  # noqa: BLE001
+            pass
+    finally:
+        conn.close()
+        os._exit(0)
+
+
+def run_isolated(args, procs, limit_s):
+    """One forked process per configuration, at most ``procs`` at a time.  A process that dies (signal, native crash) or
+    overruns ``limit_s`` yields a harness-error result for its configuration instead of hanging the check (a multiprocessing
+    Pool waits forever for the result of a worker that was killed)."""
+    import multiprocessing.connection as mpc
+
+    ctxm = mp.get_context("fork")
+    results = [None] * len(args)
+    todo = list(range(len(args)))
+    running = {}  # index -> (process, connection, start time)
+    while todo or running:
+        while todo and len(running) < procs:
+            i = todo.pop(0)
+            rcv, snd = ctxm.Pipe(duplex=False)
+            pr = ctxm.Process(target=_child, args=(snd, args[i]))
+            pr.start()
+            snd.close()
+            running[i] = (pr, rcv, time.time())
+        waitables = [rcv for (_, rcv, _) in running.values()] + [pr.sentinel for (pr, _, _) in running.values()]
+        mpc.wait(waitables, timeout=5.0)
+        for i in list(running):
+            pr, rcv, t_start = running[i]
+            got = None
+            if rcv.poll():
+                try:
+                    got = rcv.recv()
+                except (EOFError, OSError):
+                    got = None
+                if got is None and pr.is_alive():
+                    continue
+            if got is not None:
+                results[i] = got
+            elif not pr.is_alive():
+                results[i] = _dead_result(args[i][1], f"worker process died (exit code {pr.exitcode}) - native crash or kill")
+            elif time.time() - t_start > limit_s:
+                pr.kill()
+                results[i] = _dead_result(args[i][1], f"configuration exceeded the wall-clock limit of {limit_s:.0f} s")
+            else:
+                continue
+            rcv.close()
+            pr.join(timeout=5)
+            if pr.is_alive():
+                pr.kill()
+            del running[i]
+    return results
+
+
 def load_known():
     path = os.path.join(VERIF, "known_findings.json")
     if not os.path.exists(path):
@@ -294,9 +361,7 @@ def run_check(pid, modname, tier, seed, level_note_assumptions=(), procs=None):
     if procs == 1 or os.environ.get("VERIF_SERIAL"):
         results = [_worker(a) for a in args]
     else:
-        ctxm = mp.get_context("fork")
-        with ctxm.Pool(procs, maxtasksperchild=8) as pool:
-            results = pool.map(_worker, args, chunksize=1)
+        results = run_isolated(args, procs, float(os.environ.get("VERIF_CONFIG_LIMIT_S", "1200" if tier == "quick" else "3000")))
     return finish(pid, mod, tier, seed, cfgs, results, t0, level_note_assumptions)
 
 
